@@ -374,15 +374,15 @@ def r13f(ctx, run):
             return False
         it = mk_interp(methods={"has_semantics_of": lambda i, r, args: run_hs(r, args[0], depth + 1), "can_fit_into": fits})
         return it.run_fn(hs, {"self": a, name: b})
-    def run_max(a, b):
-        it = mk_interp(methods={"has_semantics_of": lambda i, r, args: run_hs(r, args[0], 1), "can_fit_into": fits0,
-                                "is_zero_sized": lambda i, r, args: False},
-                       macros={"assert_eq": lambda i, e, env: None})
-        names = mx.param_names()
-        return it.run_fn(mx, {"self": a, names[1]: b})
+    # Ty::max, has_semantics_of and can_fit_into all evaluated from their own source (the evaluator of C12): no model of the acceptance relation of
+    # my own stands in for them (an earlier version answered `plain fits distinct` with false, which the code does not, and went blind to seed C13-2
+    # once Ty::max began to ask can_fit_into)
+    import c12
+    world = c12.World(ctx)
 
-    def fits0(i, r, args):
-        return r == args[0]
+    def run_max(a, b):
+        return world.call("max", a, [b])
+
     for wrapper in ("Distinct", "EnumVariant"):
         for kn, kv in scalars.items():
             payload = {"uid": 7, "sub_ty": kv} if wrapper == "Distinct" else {"enum_uid": 3, "variant_name": Term("n"), "uid": 7, "sub_ty": kv, "discriminant": 0}
